@@ -37,7 +37,8 @@ type LifeOpts struct {
 	Cancel    bool
 	Terminate bool
 	Renew     bool
-	Pending   bool  // offer stores relayed by the owner's own account (order stays pending) + Ready
+	Pending   bool  // offer stores relayed by the owner's own account (order stays pending) + Ready; needs SidOwner
+	SidOwner  bool  // the owner is a did:sid identity bound to account T (only such accounts can submit their own requests)
 	Sponsor   bool  // offer sponsored stores (payer P)
 	NoOwnerPA bool  // the owner DID never sets a payment address (refunds are parked for the DID)
 	NoPlain   bool  // do not offer owner-paid stores
@@ -60,6 +61,10 @@ func lifeRoots(o LifeOpts) []engine.Root {
 			owners = []int{world.W, world.P}
 		}
 		st := SetupBase(w, owners, []int{world.G}, o.SPs, o.Capacity)
+		if o.SidOwner {
+			t := w.A(world.T)
+			st = append(st, fixed(Tx("bind", "bind(LS,T)", world.BindingMsg(sidLife, t, t, world.CosmosProof(t, sidLife.Did, "bind "+sidLife.Did, sidLife.Ts)))))
+		}
 		if o.SuperS1 {
 			v := sdk.ValAddress(w.A(world.V).Addr).String()
 			st = append(st, fixed(Tx("delegate", "delegate(S1,setup)", stakingDelegate(w, world.S1, v, 200_000_000))),
@@ -147,7 +152,39 @@ func LifeScenario(o LifeOpts) *engine.Scenario {
 	return sc
 }
 
+// sidLife is the did:sid owner of the scenarios with SidOwner (bound to account T, which is then its payment address).
+var sidLife = world.NewSid("LS", "sid-life-owner", uint64(world.BlockTime(1).Unix()))
+
+// asSid re-issues an owner-signed request in the name of the sid owner.
+func asSid(m sdk.Msg, sid *world.Sid) sdk.Msg {
+	kid := sid.Kid(sid.DocId)
+	switch x := m.(type) {
+	case *saotypes.MsgStore:
+		x.Proposal.Owner = sid.Did
+		x.JwsSignature = world.SignKid(sid.KeyPriv, kid, &x.Proposal)
+	case *saotypes.MsgTerminate:
+		x.Proposal.Owner = sid.Did
+		x.JwsSignature = world.SignKid(sid.KeyPriv, kid, &x.Proposal)
+	case *saotypes.MsgRenew:
+		x.Proposal.Owner = sid.Did
+		x.JwsSignature = world.SignKid(sid.KeyPriv, kid, &x.Proposal)
+	}
+	return m
+}
+
 func lifeOps(w *world.World, ctx sdk.Context, o LifeOpts) []engine.Op {
+	out := lifeOps0(w, ctx, o)
+	if o.SidOwner {
+		for i := range out {
+			if out[i].Msg != nil && out[i].Kind != "store-sponsored" {
+				out[i].Msg = asSid(out[i].Msg, sidLife)
+			}
+		}
+	}
+	return out
+}
+
+func lifeOps0(w *world.World, ctx sdk.Context, o LifeOpts) []engine.Op {
 	var out []engine.Op
 	a := w.App
 	nextOrder := a.OrderKeeper.GetOrderCount(ctx)
@@ -163,7 +200,7 @@ func lifeOps(w *world.World, ctx sdk.Context, o LifeOpts) []engine.Op {
 						} else if !exists {
 							out = append(out, Tx("store", "store("+args+")", StoreMsg(w, StoreP{Signer: world.O, Relayer: world.G, Gateway: world.G, DataId: d, CommitId: d, Size: sz, Replica: rep, Duration: dur, Timeout: to})))
 							if o.Pending {
-								out = append(out, Tx("store-pending", "store-pending("+args+")", StoreMsg(w, StoreP{Signer: world.O, Relayer: world.O, Gateway: world.G, DataId: d, CommitId: d, Size: sz, Replica: rep, Duration: dur, Timeout: to})))
+								out = append(out, Tx("store-pending", "store-pending("+args+")", StoreMsg(w, StoreP{Signer: world.O, Relayer: world.T, Gateway: world.G, DataId: d, CommitId: d, Size: sz, Replica: rep, Duration: dur, Timeout: to})))
 							}
 							if o.Sponsor {
 								out = append(out, Tx("store-sponsored", "store-sponsored("+args+")", StoreMsg(w, StoreP{Signer: world.O, Relayer: world.P, Gateway: world.G, DataId: d, CommitId: d, Size: sz, Replica: rep, Duration: dur, Timeout: to, PayDid: w.A(world.P).Did})))
@@ -311,6 +348,7 @@ type lifeGhost struct {
 	ShardData            map[uint64]string
 	MaxOrder, MaxShard   uint64 // C16
 	SeenOrder, SeenShard bool
+	Handed               map[uint64]int64 // C12: orders handed to providers by MsgReady -> height of the hand-over
 }
 
 func (g *lifeGhost) Clone() engine.Ghost {
@@ -334,6 +372,9 @@ func (g *lifeGhost) Clone() engine.Ghost {
 	for k, v := range g.Claimed {
 		c.Claimed[k] = v
 	}
+	for k, v := range g.Handed {
+		c.Handed[k] = v
+	}
 	return c
 }
 func (g *lifeGhost) Bytes() []byte {
@@ -345,6 +386,9 @@ func (g *lifeGhost) Bytes() []byte {
 	}
 	for _, k := range sortedU64(g.PaidUntil) {
 		fmt.Fprintf(&b, "%d>%d:%s;", k, g.PaidUntil[k], g.ShardData[k])
+	}
+	for _, k := range sortedU64(g.Handed) {
+		fmt.Fprintf(&b, "%d@%d;", k, g.Handed[k])
 	}
 	// MaxOrder/MaxShard are functions of the order/shard counters in the store: not part of the key
 	return []byte(b.String())
@@ -380,7 +424,7 @@ func (o *LifeOracle) InitGhost(w *world.World, ctx sdk.Context) engine.Ghost {
 
 func newLifeGhost() *lifeGhost {
 	return &lifeGhost{Income: map[string]sdk.Dec{}, Claimed: map[string]sdk.Int{}, RenewMig: map[uint64]bool{},
-		Pending: map[uint64]pendInfo{}, PaidUntil: map[uint64]int64{}, ShardData: map[uint64]string{}}
+		Pending: map[uint64]pendInfo{}, PaidUntil: map[uint64]int64{}, ShardData: map[uint64]string{}, Handed: map[uint64]int64{}}
 }
 
 func (o *LifeOracle) Step(si *engine.StepInfo) []engine.Finding {
@@ -410,6 +454,17 @@ func (o *LifeOracle) Step(si *engine.StepInfo) []engine.Finding {
 	for oid := range g.RenewMig {
 		if _, ok := post.Orders[oid]; !ok {
 			delete(g.RenewMig, oid)
+		}
+	}
+	// orders picked up by their gateway in this step (pending -> handed to providers)
+	for _, oid := range post.OrderIds {
+		if po, old := pre.Orders[oid]; old && po.Status == ordertypes.OrderPending && post.Orders[oid].Status != ordertypes.OrderPending {
+			g.Handed[oid] = pre.H
+		}
+	}
+	for oid := range g.Handed {
+		if _, ok := post.Orders[oid]; !ok {
+			delete(g.Handed, oid)
 		}
 	}
 	market := world.ModAddr(markettypes.ModuleName).String()
@@ -476,7 +531,7 @@ func (o *LifeOracle) State(w *world.World, ctx sdk.Context, s *engine.State) []e
 		out = append(out, C11State(sn, s.G.(*lifeGhost))...)
 	}
 	if o.Props["C12"] {
-		out = append(out, C12State(sn)...)
+		out = append(out, C12State(sn, s.G.(*lifeGhost))...)
 	}
 	if o.Props["C16"] {
 		out = append(out, C16State(sn)...)
